@@ -72,6 +72,10 @@ use crate::dp::{rand_bigint::UniformBigUint, Rational};
 ///
 /// [CKS20]: https://arxiv.org/pdf/2004.00010.pdf
 fn sample_bernoulli<R: Rng + ?Sized>(gamma: &Ratio<BigUint>, rng: &mut R) -> bool {
+    #[cfg(feature = "verif-hooks")]
+    if let Some(verif::Answer::Bool(answer)) = verif::intercept(verif::Call::Bernoulli(gamma.clone())) {
+        return answer;
+    }
     let d = gamma.denom();
     assert!(!d.is_zero());
     assert!(gamma <= &Ratio::<BigUint>::one());
@@ -94,6 +98,10 @@ fn sample_bernoulli<R: Rng + ?Sized>(gamma: &Ratio<BigUint>, rng: &mut R) -> boo
 ///
 /// [CKS20]: https://arxiv.org/pdf/2004.00010.pdf
 fn sample_bernoulli_exp1<R: Rng + ?Sized>(gamma: &Ratio<BigUint>, rng: &mut R) -> bool {
+    #[cfg(feature = "verif-hooks")]
+    if let Some(verif::Answer::Bool(answer)) = verif::intercept(verif::Call::BernoulliExp1(gamma.clone())) {
+        return answer;
+    }
     assert!(!gamma.denom().is_zero());
     assert!(gamma <= &Ratio::<BigUint>::one());
 
@@ -115,6 +123,10 @@ fn sample_bernoulli_exp1<R: Rng + ?Sized>(gamma: &Ratio<BigUint>, rng: &mut R) -
 ///
 /// [CKS20]: https://arxiv.org/pdf/2004.00010.pdf
 fn sample_bernoulli_exp<R: Rng + ?Sized>(gamma: &Ratio<BigUint>, rng: &mut R) -> bool {
+    #[cfg(feature = "verif-hooks")]
+    if let Some(verif::Answer::Bool(answer)) = verif::intercept(verif::Call::BernoulliExp(gamma.clone())) {
+        return answer;
+    }
     assert!(!gamma.denom().is_zero());
     for _ in range_inclusive(BigUint::one(), gamma.floor().to_integer()) {
         if !sample_bernoulli_exp1(&Ratio::<BigUint>::one(), rng) {
@@ -132,6 +144,10 @@ fn sample_bernoulli_exp<R: Rng + ?Sized>(gamma: &Ratio<BigUint>, rng: &mut R) ->
 ///
 /// [CKS20]: https://arxiv.org/pdf/2004.00010.pdf
 fn sample_geometric_exp<R: Rng + ?Sized>(gamma: &Ratio<BigUint>, rng: &mut R) -> BigUint {
+    #[cfg(feature = "verif-hooks")]
+    if let Some(verif::Answer::Nat(answer)) = verif::intercept(verif::Call::GeometricExp(gamma.clone())) {
+        return answer;
+    }
     let (s, t) = (gamma.numer(), gamma.denom());
     assert!(!t.is_zero());
     if gamma.is_zero() {
@@ -168,6 +184,10 @@ fn sample_geometric_exp<R: Rng + ?Sized>(gamma: &Ratio<BigUint>, rng: &mut R) ->
 ///
 /// [CKS20]: https://arxiv.org/pdf/2004.00010.pdf
 fn sample_discrete_laplace<R: Rng + ?Sized>(scale: &Ratio<BigUint>, rng: &mut R) -> BigInt {
+    #[cfg(feature = "verif-hooks")]
+    if let Some(verif::Answer::Int(answer)) = verif::intercept(verif::Call::Laplace(scale.clone())) {
+        return answer;
+    }
     let (s, t) = (scale.numer(), scale.denom());
     assert!(!t.is_zero());
     if s.is_zero() {
@@ -193,6 +213,10 @@ fn sample_discrete_laplace<R: Rng + ?Sized>(scale: &Ratio<BigUint>, rng: &mut R)
 ///
 /// [CKS20]: https://arxiv.org/pdf/2004.00010.pdf
 fn sample_discrete_gaussian<R: Rng + ?Sized>(sigma: &Ratio<BigUint>, rng: &mut R) -> BigInt {
+    #[cfg(feature = "verif-hooks")]
+    if let Some(verif::Answer::Int(answer)) = verif::intercept(verif::Call::Gaussian(sigma.clone())) {
+        return answer;
+    }
     assert!(!sigma.denom().is_zero());
     if sigma.is_zero() {
         return 0.into();
@@ -371,6 +395,107 @@ impl PureDpDiscreteLaplace {
     /// [DMNS06]: https://people.csail.mit.edu/asmith/PS/sensitivity-tcc-final.pdf
     pub fn create_distribution(&self, sensitivity: Rational) -> Result<DiscreteLaplace, DpError> {
         DiscreteLaplace::new(Rational(sensitivity.0 / &self.budget.epsilon.0))
+    }
+}
+
+/// Verification hook (feature `verif-hooks`): a thread-local intercept consulted at the top of each
+/// private sampler layer, plus public wrappers to call each layer directly.
+#[cfg(feature = "verif-hooks")]
+pub mod verif {
+    use super::*;
+    use std::cell::RefCell;
+
+    /// A call into one sampler layer, with its arguments.
+    #[derive(Clone, Debug)]
+    pub enum Call {
+        /// `random_biguint_below(bound)`: uniform in `[0, bound)`.
+        UniformBelow(BigUint),
+        /// `sample_bernoulli(gamma)`
+        Bernoulli(Ratio<BigUint>),
+        /// `sample_bernoulli_exp1(gamma)`
+        BernoulliExp1(Ratio<BigUint>),
+        /// `sample_bernoulli_exp(gamma)`
+        BernoulliExp(Ratio<BigUint>),
+        /// `sample_geometric_exp(gamma)`
+        GeometricExp(Ratio<BigUint>),
+        /// `sample_discrete_laplace(scale)`
+        Laplace(Ratio<BigUint>),
+        /// `sample_discrete_gaussian(sigma)`
+        Gaussian(Ratio<BigUint>),
+    }
+
+    /// The outcome an intercept chooses for a layer.
+    #[derive(Clone, Debug)]
+    pub enum Answer {
+        /// boolean layers
+        Bool(bool),
+        /// natural-number layers
+        Nat(BigUint),
+        /// integer layers
+        Int(BigInt),
+    }
+
+    type Hook = Box<dyn FnMut(&Call) -> Option<Answer>>;
+
+    thread_local! {
+        static INTERCEPT: RefCell<Option<Hook>> = const { RefCell::new(None) };
+    }
+
+    /// Install (or remove) the intercept of this thread. The intercept returns `None` to let the
+    /// real layer run.
+    pub fn set_intercept(hook: Option<Hook>) {
+        INTERCEPT.with(|h| *h.borrow_mut() = hook);
+    }
+
+    pub(crate) fn intercept(call: Call) -> Option<Answer> {
+        // Take the hook out while it runs so that a layer invoked from inside the hook is not
+        // intercepted recursively.
+        let mut hook = INTERCEPT.with(|h| h.borrow_mut().take())?;
+        let answer = hook(&call);
+        INTERCEPT.with(|h| {
+            let mut slot = h.borrow_mut();
+            if slot.is_none() {
+                *slot = Some(hook);
+            }
+        });
+        answer
+    }
+
+    /// Calls the private `sample_bernoulli`.
+    pub fn call_bernoulli<R: Rng + ?Sized>(gamma: &Ratio<BigUint>, rng: &mut R) -> bool {
+        sample_bernoulli(gamma, rng)
+    }
+    /// Calls the private `sample_bernoulli_exp1`.
+    pub fn call_bernoulli_exp1<R: Rng + ?Sized>(gamma: &Ratio<BigUint>, rng: &mut R) -> bool {
+        sample_bernoulli_exp1(gamma, rng)
+    }
+    /// Calls the private `sample_bernoulli_exp`.
+    pub fn call_bernoulli_exp<R: Rng + ?Sized>(gamma: &Ratio<BigUint>, rng: &mut R) -> bool {
+        sample_bernoulli_exp(gamma, rng)
+    }
+    /// Calls the private `sample_geometric_exp`.
+    pub fn call_geometric_exp<R: Rng + ?Sized>(gamma: &Ratio<BigUint>, rng: &mut R) -> BigUint {
+        sample_geometric_exp(gamma, rng)
+    }
+    /// Calls the private `sample_discrete_laplace`.
+    pub fn call_discrete_laplace<R: Rng + ?Sized>(scale: &Ratio<BigUint>, rng: &mut R) -> BigInt {
+        sample_discrete_laplace(scale, rng)
+    }
+    /// Calls the private `sample_discrete_gaussian`.
+    pub fn call_discrete_gaussian<R: Rng + ?Sized>(sigma: &Ratio<BigUint>, rng: &mut R) -> BigInt {
+        sample_discrete_gaussian(sigma, rng)
+    }
+    /// Calls the private uniform layer `UniformBigUint::new(low, high).sample(rng)`.
+    pub fn call_uniform<R: Rng + ?Sized>(low: &BigUint, high: &BigUint, rng: &mut R) -> Option<BigUint> {
+        UniformBigUint::new(low, high).ok().map(|u| u.sample(rng))
+    }
+    /// Calls the private uniform layer `UniformBigUint::new_inclusive(low, high).sample(rng)`.
+    pub fn call_uniform_inclusive<R: Rng + ?Sized>(low: &BigUint, high: &BigUint, rng: &mut R) -> Option<BigUint> {
+        UniformBigUint::new_inclusive(low, high).ok().map(|u| u.sample(rng))
+    }
+    /// The rational inside a [`Rational`].
+    pub fn rational_inner(r: &Rational) -> Ratio<BigUint> {
+        r.0.clone()
     }
 }
 
